@@ -493,7 +493,11 @@ def report(prop, tier, seed, joblist, results, wall, a, mod):
               assumptions=sorted(assumptions) + ["floating point treated as real arithmetic", "tolerance comparisons (allclose) treated as exact equality in symbolic mode"],
               wall_s=round(wall, 2), violations=vcount)
     if not a.jobs:
-        json.dump(ev, open(os.path.join(VERIF, 'evidence', f'{prop}.json'), 'w'), indent=1, default=str)
+        # evidence/<id>.json describes the tree the registered commands check (/repo); runs against a scratch copy (VERIF_REPO, used by the
+        # seeded-change and refactoring regressions) leave it alone and write next to it
+        own = os.path.abspath(REPO) == os.path.abspath(os.environ.get('VERIF_DEFAULT_REPO', '/repo'))
+        ev['repo'] = os.path.abspath(REPO)
+        json.dump(ev, open(os.path.join(VERIF, 'evidence', f'{prop}.json' if own else f'.scratch_{prop}.json'), 'w'), indent=1, default=str)
     print(f"[{prop}] tier={tier} jobs={len(results)} paths={paths_total} obligations={n_obl} discharged={n_dis} "
           f"known-findings={len(seen_k)} violations={vcount} undecided={len(undecided)} lost={len(lost)} "
           f"twin-runs={num_runs} twin-checks={num_checks} level={level} wall={wall:.1f}s exit={status}")
